@@ -60,7 +60,7 @@ def run_scenario(name: str, seed: int, steps: int, blue: str = "random", tweak_i
     from primaite.game.agent.scripted_agents.abstract_tap import AbstractTAP
     from primaite.game.agent.scripted_agents.data_manipulation_bot import DataManipulationAgent
     from primaite.game.agent.scripted_agents.probabilistic_agent import ProbabilisticAgent
-    from primaite.game.agent.scripted_agents.random_agent import PeriodicAgent
+    from primaite.game.agent.scripted_agents.random_agent import PeriodicAgent, RandomAgent
     from primaite.session.environment import PrimaiteGymEnv
 
     import logging
@@ -77,6 +77,7 @@ def run_scenario(name: str, seed: int, steps: int, blue: str = "random", tweak_i
                                        for n, a in taps.items()}
     n_steps = 0
     env_error = None
+    agent_error = None
     # blue's random actions are drawn only from action-map entries whose action name is registered: the shipped
     # uc7_config_tap003.yaml lists `router-acl-addrule` (unregistered) and the environment raises KeyError on it —
     # a scenario-file defect outside C19 (reported in design_notes/C19.md for C01/C20).
@@ -89,7 +90,14 @@ def run_scenario(name: str, seed: int, steps: int, blue: str = "random", tweak_i
         act = int(valid[brng.integers(len(valid))]) if blue == "random" else 0
         try:
             _, _, term, trunc, _ = env.step(act)
-        except Exception as e:      # the environment itself raised (not an agent's get_action): outside C19, see design note
+        except Exception as e:
+            import traceback
+            frames = traceback.extract_tb(e.__traceback__)
+            in_agent = [f for f in frames if f.name == "get_action" and "/game/agent/" in f.filename]
+            if in_agent:        # a scripted agent's get_action raised: the agent did not act as its settings say
+                agent_error = {"agent": in_agent[-1].filename.split("/")[-1], "what": "scripted-agent-raised-in-get_action",
+                               "detail": [n_steps, type(e).__name__, str(e).splitlines()[0][:120] if str(e) else ""]}
+            # otherwise the environment itself raised (not an agent's get_action): outside C19, see design note
             env_error = f"{type(e).__name__}: {str(e).splitlines()[0][:160]}"
             break
         n_steps += 1
@@ -97,7 +105,7 @@ def run_scenario(name: str, seed: int, steps: int, blue: str = "random", tweak_i
             samples[n].append((a.current_kill_chain_stage.name, a.next_execution_timestep, a.actions_concluded))
         if term or trunc:
             break
-    viol, stats = [], {"steps": n_steps, "agents": {}, "blue_actions_unregistered": stats_invalid, "env_error": env_error}
+    viol, stats = ([agent_error] if agent_error else []), {"steps": n_steps, "agents": {}, "blue_actions_unregistered": stats_invalid, "env_error": env_error}
     for n, a in agents.items():
         hist = a.history
         acts = [(h.timestep, h.action, h.parameters, h.response.status) for h in hist]
@@ -136,6 +144,15 @@ def run_scenario(name: str, seed: int, steps: int, blue: str = "random", tweak_i
                     viol.append({"agent": n, "what": "zero-probability-action-selected" if (x[1], x[2]) in zero
                                  else "action-outside-action-map", "detail": [x[0], x[1], x[2]]})
                     break
+        elif isinstance(a, RandomAgent):
+            amap = a.action_manager.action_map
+            stats["agents"][n] = {"kind": "random", "actions": len(acts), "distinct": len({(x[1], str(x[2])) for x in acts})}
+            for x in acts:
+                if (x[1], x[2]) not in [(v[0], v[1]) for v in amap.values()]:
+                    viol.append({"agent": n, "what": "action-outside-action-map", "detail": [x[0], x[1], x[2]]})
+                    break
+            if len(acts) != n_steps:
+                viol.append({"agent": n, "what": "random-agent-did-not-act-every-step", "detail": [len(acts), n_steps]})
         elif isinstance(a, AbstractTAP):
             s = a.config.agent_settings
             chain = TAP_CHAINS[a.config.type]
@@ -197,15 +214,35 @@ def _fast_norepeat_stages(cfg):
     s["start_step"], s["frequency"], s["variance"], s["repeat_kill_chain"], s["repeat_kill_chain_stages"] = 2, 2, 0, True, False
 
 
-TWEAKS = {"": None, "fast": _fast, "fast-var": _fast_var, "fast-repeat": _fast_repeat, "fast-fail": _fast_norepeat_stages}
+def _zero_start(cfg):
+    """first execution slot = step 0 (empty history)"""
+    s = _tap(cfg)
+    s["start_step"], s["frequency"], s["variance"] = 0, 2, 0
+
+
+def _early_var(cfg):
+    """start_step − variance < 0: the first draw may schedule a negative first slot"""
+    s = _tap(cfg)
+    s["start_step"], s["frequency"], s["variance"] = 1, 3, 2
+
+
+def _with_random_agent(cfg):
+    """a `random-agent` added to the scenario, with the action map of the first probabilistic agent"""
+    src = next(a for a in cfg["agents"] if a["type"] == "probabilistic-agent")
+    cfg["agents"].append({"ref": "c19_random_agent", "team": "GREEN", "type": "random-agent",
+                          "action_space": copy.deepcopy(src["action_space"])})
+
+
+TWEAKS = {"zero-start": _zero_start, "early-var": _early_var, "random-agent": _with_random_agent, "": None, "fast": _fast, "fast-var": _fast_var, "fast-repeat": _fast_repeat, "fast-fail": _fast_norepeat_stages}
 
 
 def run_all(ctx):
     plan = [("uc2", "", "random"), ("uc2", "", "idle"),
             ("uc7-tap001", "fast", "idle"), ("uc7-tap001", "fast", "random"), ("uc7-tap001", "fast-fail", "random"),
-            ("uc7-tap003", "fast", "idle"), ("uc7-tap003", "fast-repeat", "random")]
+            ("uc7-tap003", "fast", "idle"), ("uc7-tap003", "fast-repeat", "random"),
+            ("uc2", "random-agent", "random"), ("uc7-tap001", "zero-start", "idle"), ("uc7-tap003", "early-var", "random")]
     if ctx.thorough:
-        plan += [(n, tw, b) for n in ("uc7-tap001", "uc7-tap003") for tw in ("fast-var", "fast-repeat", "fast-fail", "")
+        plan += [(n, tw, b) for n in ("uc7-tap001", "uc7-tap003") for tw in ("fast-var", "fast-repeat", "fast-fail", "zero-start", "early-var", "")
                  for b in ("random", "idle")] + [("uc2", "", "random")] * 3
     steps = ctx.scale(70, 128)
     rng = ctx.rng.fork("scenarios")
